@@ -138,6 +138,9 @@ func Deref(p *Term, typ types.Type) *Term       { return mk('d', "", nil, typ, p
 func CallT(fn string, typ types.Type, args ...*Term) *Term {
 	return mk('k', fn, nil, typ, args...)
 }
+// CastT is the term of the type assertion x.(t).
+func CastT(x *Term, t types.Type) *Term { return mk('t', types.TypeString(t, nil), nil, t, x) }
+
 func LenOf(t *Term) *Term {
 	// len(x[:n]) is n (the slice expression would have panicked otherwise)
 	if t.K == 's' && len(t.A) >= 3 && t.A[1].K == 'z' && t.A[2].K != 'z' && (len(t.A) < 4 || t.A[3].K == 'z') {
@@ -557,8 +560,10 @@ func (c *Canon) callTerm(sc *scope, call *ast.CallExpr) *Term {
 			}
 		}
 	} else {
-		ft := c.term(sc, call.Fun)
-		name = "dyn:" + ft.key
+		// a call of a function value: the value is the first argument of the term, so that equalities
+		// between function-typed variables (a helper's parameter bound to the caller's) rewrite it
+		name = "dyn"
+		args = append(args, c.term(sc, call.Fun))
 	}
 	for _, a := range call.Args {
 		args = append(args, c.term(sc, a))
